@@ -29,7 +29,7 @@ POINTS = {'a', 'a1', 'b', 'li', 'ri'}
 REDUCING = ('from_bytes_mod_order', 'from_bits', 'from_bits_clamped', 'from_bytes_mod_order_wide', 'from_uniform_bytes', 'hash_from_bytes')
 
 
-def run(ctx):
+def run(ctx, with_contradiction=True):
     rep = ctx.rep
     enc = ctx.fn('RangeProof::<P>::to_bytes', 'R-C15-1')
     dec = ctx.fn('RangeProof::<P>::from_bytes', 'R-C15-1')
@@ -210,6 +210,8 @@ def run(ctx):
               'Deserialize does not request bytes', ctx.where(de[0]) if de else None)
 
     # ---- R-C15-5 contradiction rule
+    if not with_contradiction:
+        return
     nsites = 0
     for b in ctx.facts.fns():
         if b.impl_trait == 'std::clone::Clone':
